@@ -4,6 +4,8 @@ package parser
 import (
 	"errors"
 	"fmt"
+	"math"
+	"math/big"
 	"reflect"
 	"strconv"
 	"strings"
@@ -672,6 +674,17 @@ func toNumber(numString string) (reflect.Value, error) {
 		f, err := strconv.ParseFloat(numString, 64)
 		if err != nil {
 			return nilValue, err
+		}
+		if len(numString) > 800 {
+			// strconv.ParseFloat keeps 800 digits and loses the scale of a longer
+			// integer part: round the exact value instead
+			if r, ok := new(big.Rat).SetString(numString); ok {
+				exact, _ := r.Float64()
+				if math.IsInf(exact, 0) {
+					return nilValue, &strconv.NumError{Func: "ParseFloat", Num: numString, Err: strconv.ErrRange}
+				}
+				f = exact
+			}
 		}
 		return reflect.ValueOf(f), nil
 	}
